@@ -265,6 +265,8 @@ class QGen:
         if k < 0.55:
             return "%s IN (%s)" % (self.colref(vis), ", ".join(self.ph() if allow_param else "1" for _ in range(r.randint(1, 3))))
         if k < 0.62:
+            if allow_param and r.random() < 0.4:
+                return "%s = %s(%s)" % (self.colref(vis), r.choice(["ANY", "ANY", "ALL"]), self.ph())      # the array operand as a bare placeholder
             return "%s = ANY(%s::int[])" % (self.colref(vis), self.ph() if allow_param else "'{}'")
         if k < 0.70:
             f = r.choice(["lower", "upper", "length", "abs", "unknownfn", "md5"])
@@ -284,7 +286,7 @@ class QGen:
         if k < 0.86 and allow_param:
             return "%s BETWEEN %s AND %s" % (self.colref(vis), self.ph(), self.ph())
         if k < 0.90 and allow_param:
-            return "%s = %s::%s" % (self.colref(vis), self.ph(), r.choice(["int", "text", "bigint", "text[]", "status"]))
+            return "%s = %s::%s" % (self.colref(vis), self.ph(), r.choice(["int", "text", "bigint", "text[]", "status", "int[3]", "text[2][2]", "int ARRAY[4]", "bigint[]"]))
         if depth < 2:
             return "(%s) %s (%s)" % (self.cond(vis, allow_param, depth + 1), r.choice(["AND", "OR"]), self.cond(vis, allow_param, depth + 1))
         return "%s = 1" % self.colref(vis)
@@ -354,6 +356,16 @@ class QGen:
         r = self.rng
         k = r.random()
         tabs = list(self.s.tables)
+        if self.style == "pos" and r.random() < 0.03:
+            # a wide statement: 10-14 distinct placeholders ($10 sorts before $2 as text), numbered out of order
+            t = r.choice(tabs)
+            cols = self.s.tables[t]
+            n = r.randint(10, 14)
+            nums = list(range(1, n + 1))
+            r.shuffle(nums)
+            self.nparam = n
+            conds = ["%s %s $%d" % (r.choice(cols), r.choice(["=", "<>", ">", "<"]), i) for i in nums]
+            return "SELECT %s FROM %s WHERE %s" % (cols[0], t, (" %s " % r.choice(["AND", "OR"])).join(conds)), "select"
         if k < 0.10:
             t = r.choice(tabs)
             cols = self.s.tables[t]
@@ -374,7 +386,10 @@ class QGen:
             sql, _ = self.select()
             if r.random() < 0.08:
                 sql2, _ = self.select(1, simple=True)
-                sql = "%s UNION %s%s" % (sql.split(" ORDER BY")[0].split(" LIMIT")[0].split(" OFFSET")[0], r.choice(["", "ALL "]), sql2)
+                sql = "%s %s %s%s" % (sql.split(" ORDER BY")[0].split(" LIMIT")[0].split(" OFFSET")[0], r.choice(["UNION", "UNION", "INTERSECT", "EXCEPT"]), r.choice(["", "ALL "]), sql2)
+                if self.style != "none" and r.random() < 0.5 and " LIMIT" not in sql2 and " ORDER BY" not in sql2:
+                    # ORDER BY / LIMIT / OFFSET of the combined result, with placeholders
+                    sql += " ORDER BY 1 LIMIT %s%s" % (self.ph(), (" OFFSET %s" % self.ph()) if r.random() < 0.5 else "")
             return sql, "select"
         if k < 0.66:
             nm = r.choice(["cte", "recent", "authors", "x"])
@@ -442,11 +457,18 @@ class QGen:
                 if len(tabs) > 1 and r.random() < 0.5:
                     t2 = r.choice([x for x in tabs if x != t])
                     pre = "%s = (SELECT max(%s) FROM %s), " % (r.choice(cols), r.choice(self.s.tables[t2]), t2)
-                oc = " ON CONFLICT (%s) DO UPDATE SET %s%s = %s" % (cs[0], pre, r.choice(cols), self.ph())
+                where = ""
+                if r.random() < 0.4:
+                    where = " WHERE %s > %s" % (r.choice(cols), self.ph())      # the predicate of a partial unique index
+                oc = " ON CONFLICT (%s)%s DO UPDATE SET %s%s = %s" % (cs[0], where, pre, r.choice(cols), self.ph())
             return "INSERT INTO %s (%s) VALUES %s%s%s" % (t, ", ".join(cs), ", ".join(rows), oc, ret), "insert"
         if k < 0.92:
             n = r.randint(1, min(2, len(cols)))
             sets = ", ".join("%s = %s" % (c, self.ph() if r.random() < 0.8 else "1") for c in r.sample(cols, n))
+            if len(cols) > 1 and r.random() < 0.12:
+                # multi-column assignment: the i-th value belongs to the i-th column, placeholders and other values mixed
+                mc = r.sample(cols, r.randint(2, min(3, len(cols))))
+                sets = "(%s) = (%s)" % (", ".join(mc), ", ".join(r.choice([self.ph(), self.ph(), "'fixed'", "NULL", "DEFAULT", "1", self.ph() + "::text"]) for _ in mc))
             if len(tabs) > 1 and r.random() < 0.12:
                 t2 = r.choice([x for x in tabs if x != t])
                 sets = "%s = (SELECT max(%s) FROM %s), %s" % (r.choice(cols), r.choice(self.s.tables[t2]), t2, sets)
